@@ -516,6 +516,13 @@ class IOLoop(Configurable):
         if timeout is not None:
 
             def timeout_callback() -> None:
+                assert future_cell["future"] is not None
+                if future_cell["future"].done():
+                    # The function already finished (in this same iteration).
+                    # Its add_future callback is queued and will stop the
+                    # loop; stopping here too would leave that callback
+                    # behind to stop the next start() prematurely.
+                    return
                 # signal that timeout is triggered
                 future_cell["timeout_called"] = True
                 # If we can cancel the future, do so and wait on it. If not,
